@@ -55,12 +55,14 @@ def cfg(compiler, opt, std='c++17', abacus=False, **kw):
 # the clang configuration mirrors a release build of a project that uses the compiler defaults: GNU dialect (no __STRICT_ANSI__),
 # -DNDEBUG, -funsigned-char (the default on ARM/PowerPC Linux) and -fno-math-errno (math_errhandling loses MATH_ERRNO; implied by
 # -ffast-math but harmless to IEEE semantics on its own): code hidden behind those switches is a configuration dimension too.
-# The forced-constant-evaluation configuration is also the ISO-dialect -march=native one (FP_FAST_FMA, __FMA__, __AVX2__, ...).
+# The forced-constant-evaluation configuration is also the ISO-dialect -march=native one (FP_FAST_FMA, __FMA__, __AVX2__, ...) and is
+# built with -fno-inline: functions that are not gnu::always_inline (the conversion operators, the compiled table functions'
+# callers) are emitted and called out of line at -O2, which is where a false [[gnu::const]] on them shows under GCC.
 FORCE_CE = ['-include', os.path.join(HARNESS, 'force_ce.h')]   # harness/force_ce.h: is_constant_evaluated() answers true at run time
 # gcc-O0: umbrella header, GNU dialect, -ftrapv (signed overflow aborts in this uninstrumented build for every monitor's inputs),
 # _GLIBCXX_ASSERTIONS (std::array bounds)
 QUICK_CFGS = [cfg('g++', '-O0', 'gnu++17', extra=['-DVERIF_UMBRELLA=1', '-ftrapv', '-D_GLIBCXX_ASSERTIONS'], tag='gcc-O0-gnu++17-umbrella-trapv'), cfg('g++', '-O2'), cfg('clang++', '-O2', 'gnu++17', extra=['-DNDEBUG', '-funsigned-char', '-fno-math-errno'], tag='clang-O2-gnu++17-ndebug-uchar-nomatherrno'),
-              cfg('g++', '-O2', 'c++2b', extra=FORCE_CE + ['-march=native'], tag='gcc-O2-c++2b-ce-native')]
+              cfg('g++', '-O2', 'c++2b', extra=FORCE_CE + ['-march=native', '-fno-inline'], tag='gcc-O2-c++2b-ce-native-noinline')]
 # the abacus configuration is also the GNU-dialect, -march=native (LZCNT/BMI/AVX2 builtins selected by feature macros) one
 ABACUS_QUICK = [cfg('g++', '-O2', 'gnu++17', abacus=True, extra=['-march=native'], tag='gcc-O2-gnu++17-abacus-native')]
 
